@@ -223,10 +223,6 @@ def _helper_worker(chunk, st: Stats):
     for (n, shape, w, fails) in chunk:
         for sig, what, case in _helper_group(n, shape, w, set(fails), st):
             _viol(st, sig, what, case)
-    if chunk:
-        n, shape, w, fails = chunk[0]
-        st.sample({"kind": "helper", "n": n, "shape": shape, "w": w, "fails": list(fails),
-                   "orders": po.count_orders(n, w)})
 
 
 def helper_units(thorough: bool, seed: int):
@@ -443,8 +439,6 @@ def _t1_worker(chunk, st: Stats):
     for case in chunk:
         for sig, what, c in _t1_group(case, st):
             _viol(st, sig, what, c)
-    if chunk:
-        st.sample(dict(chunk[0], kind="t1"))
 
 
 def t1_units(thorough: bool, seed: int):
@@ -665,15 +659,16 @@ def _t2_worker(chunk, st: Stats):
     for case in chunk:
         for sig, what, c in _t2_group(case, st):
             _viol(st, sig, what, c)
-    if chunk:
-        st.sample(dict(chunk[0]))
 
 
 def t2_units(thorough: bool, seed: int):
     eps = list(T2_EPISODES) if thorough else ["a", "b", "c", "e"]
     maxlen = 5 if thorough else 4
     mems = [list(p) for r in range(0, maxlen + 1) for p in itertools.permutations(eps, r)]
-    tier_lists = TIER_LISTS if thorough else [t for t in TIER_LISTS if len(t) == 1 or t[0] == "exact_semantic" or len(t) == 3]
+    tier_lists = TIER_LISTS if thorough else [
+        ["exact_semantic"], ["cluster_semantic"], ["archive"], ["exact_semantic", "cluster_semantic"],
+        ["cluster_semantic", "archive"], ["exact_semantic", "cluster_semantic", "archive"],
+        ["archive", "cluster_semantic", "exact_semantic"]]
     ms = (1, 3)
     units = []
     for mem in mems:
@@ -725,6 +720,17 @@ def run(run: Run) -> None:
     t2 = _time.time()
     run.pmap(_t2_worker, t2u, chunks=512)
     run.notes["wall_s_by_part"] = {"helper": round(t1 - t0, 1), "t1": round(t2 - t1, 1), "t2": round(_time.time() - t2, 1)}
+    # concrete samples chosen by position in the enumeration (deterministic, independent of worker scheduling)
+    run.samples = []
+    for units, part in ((hu, "helper"), (tu, "t1"), (t2u, "t2")):
+        for pos in (len(units) // 3, len(units) - 1):
+            u = units[pos]
+            if part == "helper":
+                n, shape, w, fails = u
+                run.samples.append({"kind": "helper", "n": n, "shape": shape, "keys": repr(_shape(shape, n)[0]), "w": w,
+                                    "fails": list(fails), "feasible_orders": po.count_orders(n, w)})
+            else:
+                run.samples.append(dict(u))
     run.rule = ("every feasible completion order (DFS over 'which running task finishes next' in a FIFO pool of min(w,n) threads, "
                 "enforced on the real ThreadPoolExecutor by gated thunks) x (helper) n<=%d tasks, max_workers 0..8, every failing subset, "
                 "%d key shapes; (T1) %d groups = graph lists x texts x cap settings x workers 2..4 x LRU capacity {1,512} x fresh/pre-warmed; "
@@ -737,8 +743,10 @@ def run(run: Run) -> None:
     run.assume("a ThreadPoolExecutor of w threads starts work items in submit order (checked by a probe on the real pool at start-up); "
                "tasks the model expects to be running are awaited, a missing one is a harness error, never a verdict")
     run.assume("'real pools under switch-interval jitter' and 'sampled beyond 5 tasks' of the quantifier text are not done (sampling)")
-    run.assume("cache diagnostics (cache_hits, cache_misses, cache_used; max_delta when a cache hit is possible) and parallel-only "
-               "diagnostics (task_count, parallel_workers) are not compared")
+    run.assume("not compared: cache diagnostics (cache_hits, cache_misses, cache_used, cache eviction counters; and, whenever a cache "
+               "hit is possible -- pre-warmed cache or a graph listed twice --, the values a hit reports as 0: max_delta, "
+               "t1_frontier_evicted, t1_dedup_hits, t1_visited_evicted) and the diagnostics that describe the parallel configuration "
+               "itself (task_count, parallel_workers)")
 
 
 def replay(case):
